@@ -35,7 +35,33 @@ Section C10.
       destruct (Analyses.get_ae _ _ _ _ _) as [[a0 b0] V0]. destruct (solve2 _ _ _ _ _ _) as [d0 d1].
       destruct f as [|f']; [discriminate|]. apply IH in H. cbn [s_w s_p s_q set_c Analyses.set_ae] in H. exact H.
   Qed.
+
+  (* pitch_trim_using_orientation either raises or leaves the aircraft in a state in which CL and Cm, as computed by the solver, meet both
+     targets (the targets are whatever the caller passes: the weight coefficient by default, also on a banked aircraft) *)
+  Theorem C10_orientation_trim_post : forall max_iter s ic phi theta psi flap CLd Cmd relax tol v0 w0 p0 th fl sf,
+    orient_trim_loop fcos fsin F solve2 max_iter s ic phi theta psi flap (trim_res F s CLd Cmd) CLd Cmd relax tol v0 w0 p0 = Some (th, fl, sf) ->
+    Rabs (nth 0 (F sf) 0 - CLd) <= tol /\ Rabs (nth 2 (F sf) 0 - Cmd) <= tol.
+  Proof. intros. eapply orient_trim_post; [reflexivity | eassumption]. Qed.
 End C10.
+Print Assumptions C10_orientation_trim_post.
+
+(* ... and changes only the elevation angle and the chosen pitch control: with the real cos and sin, the state it returns is the one it
+   was given (already trimmed), or has the attitude built from the unchanged bank and heading and the returned elevation, the Earth-fixed
+   velocity, the rates and the position recorded before the loop, and every control but the chosen one as it was *)
+From MuxV Require Import Proofs.AeroStateP.
+Theorem C10_orientation_trim_frame : forall F solve2 max_iter s ic phi theta psi flap R CLd Cmd relax tol v0 w0 p0 th fl sf,
+  orient_trim_loop cos sin F solve2 max_iter s ic phi theta psi flap R CLd Cmd relax tol v0 w0 p0 = Some (th, fl, sf) ->
+  (sf = s /\ th = theta /\ fl = flap) \/
+  (s_q sf = euler_to_quat cos sin phi th psi /\ s_v sf = v0 /\ s_w sf = w0 /\ s_p sf = p0 /\
+   forall j, j <> ic -> nth j (s_c sf) 0 = nth j (s_c s) 0).
+Proof.
+  intros F solve2 max_iter s ic phi theta psi flap R CLd Cmd relax tol v0 w0 p0 th fl sf H.
+  destruct (orient_trim_frame cos sin F solve2 max_iter s ic phi theta psi flap R CLd Cmd relax tol v0 w0 p0 th fl sf H)
+    as [Hs|[Hq [Hw [Hp [Hv Hc]]]]]; [left; exact Hs|].
+  right. repeat split; try assumption.
+  rewrite Hv, Hq. apply inv_trans_trans_unit. apply euler_to_quat_unit.
+Qed.
+Print Assumptions C10_orientation_trim_frame.
 Print Assumptions C10_target_CL_post.
 Print Assumptions C10_pitch_trim_post.
 Print Assumptions C10_pitch_trim_frame.
